@@ -107,8 +107,9 @@ def board_games(ctx, params):
 
 
 def ref_solve(ctx, desc_e, prune, fine=False):
-    key = ("solve", canon_e(desc_e), bool(prune), bool(fine))
-    return ctx.ref.call("solve", {"desc": desc_e, "prune": bool(prune), "fine": bool(fine)}, key=key)
+    cap = getattr(ctx, "sweep_cap", None)
+    key = ("solve", canon_e(desc_e), bool(prune), bool(fine), cap)
+    return ctx.ref.call("solve", {"desc": desc_e, "prune": bool(prune), "fine": bool(fine), "sweep_cap": cap}, key=key)
 
 
 def pick_desc(rng, ctx, allow_bad=True):
